@@ -133,7 +133,10 @@ impl<'a> Printer<'a> {
             }
             _ => false,
         };
-        if redundant && self.choice(2) == 0 {
+        // a conditional is a primary expression: `if a { 1 } else if b { 2 } else { 3 } + 4` is the
+        // sum of the whole conditional and 4 (outside of heads only, see `head`)
+        let bare_conditional = matches!(child.kind, ExprKind::If(..) | ExprKind::Match(..)) && self.head_depth == 0 && !child.ty.is_unit();
+        if (redundant && self.choice(2) == 0) || (bare_conditional && self.choice(3) == 0) {
             self.expr(child)
         } else {
             self.operand(child)
@@ -240,7 +243,15 @@ impl<'a> Printer<'a> {
                 self.block_body(t);
                 let mut last = self.emit("}");
                 let omit_else = f.stmts.is_empty() && f.tail.is_none() && self.choice(2) == 0;
-                if !omit_else {
+                // an else block that consists of a conditional only is written as `else if` half of the time
+                let else_if = match (&f.stmts[..], &f.tail) {
+                    ([], Some(t)) if matches!(t.kind, ExprKind::If(..)) && self.choice(2) == 0 => Some(t),
+                    _ => None,
+                };
+                if let Some(nested) = else_if {
+                    self.emit("else");
+                    last = self.expr(nested).1;
+                } else if !omit_else {
                     self.emit("else");
                     self.emit("{");
                     self.block_body(f);
@@ -394,11 +405,13 @@ impl<'a> Printer<'a> {
                 let Ty::Struct(si) = &b.ty else { panic!("harness: struct field on non-struct") };
                 let fname = self.defs.structs[*si].fields[*fi].0.clone();
                 self.force_suffix += 1;
-                self.postfix_base(b);
+                let sb = self.postfix_base(b);
                 self.force_suffix -= 1;
                 self.emit(".");
                 let i1 = self.emit(&fname);
-                (i1, i1)
+                // (the location of a field access starts at its receiver, like that of every other
+                // postfix expression)
+                (sb.0, i1)
             }
             ExprKind::Join(a, b) => {
                 let i0 = self.emit("join");
@@ -574,7 +587,7 @@ impl<'a> Printer<'a> {
             }
             StmtKind::Assign { var, accs, op, value, .. } => {
                 let i0 = self.emit(var);
-                let mut start = i0;
+                let start = i0;
                 for a in accs {
                     match a {
                         Acc::Index(i) => {
@@ -588,8 +601,7 @@ impl<'a> Printer<'a> {
                         Acc::Field(si, fi) => {
                             let fname = self.defs.structs[*si].fields[*fi].0.clone();
                             self.emit(".");
-                            // a struct access expression has the span of its field name only
-                            start = self.emit(&fname);
+                            self.emit(&fname);
                         }
                     }
                 }
